@@ -123,7 +123,7 @@ Definition ex_threads : list thread :=
     start metrics_RecordParse [9; 2; 0; 1003; 0; 0] ].
 Definition ex_sched : list nat :=
   concat (repeat [0; 1; 2; 3; 2; 1; 0]%nat 12).
-Definition ex_init : mem := fun l => if N.eqb l metrics_loc_minQuerySize then -1 else 0.
+Definition ex_init : mem := fun l => if N.eqb l metrics_pub_MinQuerySize then -1 else 0.
 
 Example ex_hyp : forall t, In t ex_threads -> In (t_secs t) metrics_progs /\ t_si t = 0%nat /\ t_pc t = 0%nat.
 Proof. intros t [<-|[<-|[<-|[<-|[]]]]]; vm_compute; tauto. Qed.
@@ -131,8 +131,8 @@ Example ex_done : all_done (snd (run (ex_init, ex_threads) ex_sched)) = true.
 Proof. vm_compute. reflexivity. Qed.
 Example ex_totals :
   let m := fst (run (ex_init, ex_threads) ex_sched) in
-  (m metrics_loc_tokenizeOperations, m metrics_loc_tokenizeErrors, m metrics_loc_totalQueryBytes,
-   m metrics_loc_minQuerySize, m metrics_loc_maxQuerySize, m metrics_loc_parseOperations, m metrics_loc_statementsCreated)
+  (m metrics_pub_TokenizeOperations, m metrics_pub_TokenizeErrors, m metrics_pub_TotalBytesProcessed,
+   m metrics_pub_MinQuerySize, m metrics_pub_MaxQuerySize, m metrics_pub_ParseOperations, m metrics_pub_StatementsCreated)
   = (3, 1, 427, 7, 300, 1, 2).
 Proof. vm_compute. reflexivity. Qed.
 
